@@ -5,6 +5,7 @@ import math
 from ..engine import Prop, Judgement
 from ..numcmp import fr
 from .. import brokerlib as bl
+from .. import sesslib as sl
 
 ASSETS = ['AAA', 'BBB', 'CCC']
 LBS = [1, 2, 3, 5, 21, 126]
@@ -71,13 +72,54 @@ class C16(Prop):
 
     def gen(self, rng, tier):
         n = 300 if tier == 'quick' else 4000
-        return [gen_case(rng, tier) for _ in range(n)]
+        out = [gen_case(rng, tier) for _ in range(n)]
+        # whole sessions: what the signals are fed during a backtest
+        for _ in range(50 if tier == 'quick' else 600):
+            c = sl.gen_session(rng, tier, alpha_kinds=('topn', 'smatrend'), allow_dynamic=True, all_quoted=True)
+            c['_worker'] = 'sessworker'
+            c['session'] = True
+            out.append(c)
+        return out
 
     def model_case(self, c):
+        if c.get('session'):
+            return sl.session_model_case(c)
         lbs = [int(n) for n in c['lookbacks']] if c.get('tie') else []
         return ('signals', [list(c['report']), lbs, [[a, Fraction(x)] for a, x in c['appends']]])
 
+    def judge_session(self, c, o, mod):
+        j = Judgement()
+        j.key = hash(repr(c['cfg']))
+        sl.compare_session(c, o, mod, j)
+        if o['init'][0] != 'ok':
+            return j
+        cfg = c['cfg']
+        closes = [t for t, k in sl.event_times(cfg['start'], cfg['end']) if k == 'market_close']
+        if o['error'] is not None:
+            closes = [t for t in closes if t < o['error'][1]]
+        rows = dict((t, dict(sn)) for t, sn in c['market']['rows'])
+        u = cfg['universe']
+        entry = dict((a, cfg['start']) for a in u[1]) if u[0] == 'static' else dict((a, e) for a, e in u[1])
+        for a, e in entry.items():
+            got = o['signal_obs'].get(a, [])
+            if e is None:
+                want = []
+            else:
+                want = [[t, rows[t].get(a)] for t in closes if e <= max(cfg['start'], t)]
+            if [x[0] for x in got] != [x[0] for x in want]:
+                j.failures.append('signal observations of %s at %s..., expected one per business-day close from its entry: %s...' % (
+                    a, [x[0] for x in got][:4], [x[0] for x in want][:4]))
+            elif any(x[1] != y[1] for x, y in zip(got, want)):
+                j.failures.append('signal observations of %s are not that day\'s close prices' % a)
+        if o['warmup'] is not None and o['error'] is None and o['warmup'] != len(closes):
+            j.failures.append('warmup counter %s after %d market closes' % (o['warmup'], len(closes)))
+        if o['signal_obs']:
+            j.nontrivial = True
+        return j
+
     def judge(self, c, impl, mod):
+        if c.get('session'):
+            return self.judge_session(c, impl, mod)
         j = Judgement()
         j.key = hash(repr((c['assets'], c['lookbacks'], c['appends'])))
         streams = dict((a, []) for a in c['report'])
